@@ -210,6 +210,13 @@ _COUNTERS = (
 )
 
 
+class _TC:
+    """Stands for a test case object handed to the execution observers."""
+
+
+_TCS = (_TC(), _TC())
+
+
 def _apply(cond, kind, ev, v, count, limit):
     """Fire event ``ev`` at the real condition; return the (count, limit) the property statement implies:
     iterations are counted by completed iterations, executions by started test executions, statements by the
@@ -221,12 +228,14 @@ def _apply(cond, kind, ev, v, count, limit):
         cond.after_search_iteration(None)
         return (count + 1 if kind == 0 else count), limit
     if ev == 2:
-        cond.before_remote_test_case_execution(None)
+        # one of two test case objects: the same object may well be executed twice in a row (re-execution after an
+        # in-place change, the type-tracing re-run); every started execution counts
+        cond.before_remote_test_case_execution(_TCS[0] if v % 2 == 0 else _TCS[1])
         return (count + 1 if kind == 1 else count), limit
     if ev == 3:
         r = ExecutionResult()
         r.num_executed_statements = v
-        cond.after_remote_test_case_execution(None, r)
+        cond.after_remote_test_case_execution(_TCS[0] if v % 2 == 0 else _TCS[1], r)
         return (count + v if kind == 2 else count), limit
     if ev == 4:
         cond.reset()
